@@ -99,6 +99,8 @@ def r4(ctx, facts, model):
                 for ve in b.variant_edges(lambda so: so == ("call", nbb, ())):
                     if ve["edges"].get("Some"):
                         loops.append((nbb, ve["edges"]["Some"][1]))
+        # the kill loop is the one whose body contains a death
+        loops = [(n_, s_) for n_, s_ in loops if any(bb in b.reachable(s_, stop=[n_]) for bb, _ in deaths)]
         if not loops:
             continue
         nbb, some_t = loops[0]
